@@ -106,6 +106,18 @@ def judge(ctx, cases):
         for key, v in (("validated_against_design", len(hrows)), ("explained_bit_for_bit", sum(x[1] for x in st)),
                        ("drifted", len(ctx.drift) - ndrift)):
             ctx.notes["hermite_runs_%s" % key] = ctx.notes.get("hermite_runs_%s" % key, 0) + v
+    # ... and every lagrange() call through module LagrangeNeville (Neville's table of polynomials, cell by cell)
+    lrows = [{"id": r["id"], "kind": r["kind"], "cx": r["cx"], "xs": r["xs"], "ys": r["ys"], "tol": r["tol"],
+              "obs": {"st": r["obs"]["st"], "coefs": r["obs"].get("coefs", [])}} for r in rows if r["kind"] == "lagrange"]
+    if lrows:
+        ndrift = len(ctx.drift)
+        fncommon.validate(ctx, lrows, "Trace_LagrangeNeville", "itpdn", nshards=12)
+        ctx.traces -= len(lrows)
+        st = [x for x in ctx.notes.get("_stat", []) if x and x[0] == "lagrange_runs_explained"]
+        ctx.notes["_stat"] = [x for x in ctx.notes.get("_stat", []) if not (x and x[0] == "lagrange_runs_explained")]
+        for key, v in (("validated_against_design", len(lrows)), ("explained_bit_for_bit", sum(x[1] for x in st)),
+                       ("drifted", len(ctx.drift) - ndrift)):
+            ctx.notes["lagrange_runs_%s" % key] = ctx.notes.get("lagrange_runs_%s" % key, 0) + v
     for c in cases:
         ctx.count_case(brief(c), len(c["xs"]) >= 2)
     for c in cases[:: max(1, len(cases) // 3)][:3]:
@@ -122,6 +134,7 @@ def run(ctx):
     # derivatives matched up to what the cleaning may remove, exactly at a zero tolerance; Err exactly for mismatched lengths
     vlib.e1(ctx, "MC_HermiteDD", "HermiteDD", ["Begin", "Cell", "Horner", "Finish"],
             cfg="MC_HermiteDD.cfg" if ctx.tier == "quick" else "MC_HermiteDD_thorough.cfg", workers=4, timeout=3000)
+    vlib.e1(ctx, "MC_LagrangeNeville", "LagrangeNeville", ["Begin", "Cell", "Clean"], cfg="MC_LagrangeNeville.cfg", workers=4, timeout=3000)
     cases = fncommon.gen_tlc(ctx, "Gen_C15", "c15", timeout=1800)
     n = len(cases)
     cases += seeded(ctx, rng, 400 if ctx.tier == "quick" else 4000)
